@@ -51,6 +51,8 @@ func c01(tier string) []*explore.Scenario {
 	}
 	// the shipped topologies: through a proxy and a demultiplexer (one Serve per client)
 	out = append(out, c16RPCFam("C01", "2unary", false, 1), c16RPCFam("C01", "2unary", true, 1), c16RPCFam("C01", "payloads", true, 0))
+	// a proxy in front of ONE server connection (no demultiplexer): unary calls of one client while another client streams, equal ids
+	out = append(out, c16RPCFamO("C01", "2unary", true, 1, true), c16RPCFamO("C01", "unary+stream", true, 1, true), c16RPCFamO("C01", "unary+stream", false, 1, true))
 	// on a connection with a history (earlier calls that succeeded, failed, were cancelled or reset)
 	out = append(out, withHistory(historyKinds(tier), c01Direct(2, env.PipeOpts{Cap: 64, Serialize: true}, 1, false), c01Direct(3, env.PipeOpts{Cap: 0}, 1, false), c01Direct(16, po, 0, false))...)
 	out = append(out, withConfig(configKinds(tier), c01Direct(2, env.PipeOpts{Cap: 64, Serialize: true}, 1, false), c01Direct(3, env.PipeOpts{Cap: 0}, 1, false), c01Direct(16, po, 0, false))...)
